@@ -99,7 +99,7 @@ type RunOpts struct {
 func DefaultConfig() *Config {
 	return &Config{MaxSteps: 3000000, MaxDepth: 400, LoopBound: 100000, ConcK: 8, StrPool: []string{"", "a", "b"},
 		TimeoutMs: 30000, Params: map[string]int{},
-		RunInits: []string{"github.com/256dpi/lungo", "gopkg.in/tomb.v2", "context"}}
+		RunInits: []string{"github.com/256dpi/lungo", "gopkg.in/tomb.v2", "context", "go.mongodb.org/mongo-driver/mongo/options"}}
 }
 
 // Run explores all paths of one harness function.
